@@ -118,14 +118,20 @@ class TransformedMessage(MessageInterface):
         return self.with_base(type(self.base_message)(*args, **kwargs))
 
     def copy(self):
-        return TransformedMessage(self.base_message, *self.transforms, id_=self.id)
+        return self.with_base(self.base_message)
 
     def with_base(self, message: MessageInterface) -> "TransformedMessage":
         """
         Creates a new TransformedMessage with the same id and transforms but a new
         underlying base message
         """
-        return TransformedMessage(message, *self.transforms, id_=self.id)
+        return TransformedMessage(
+            message,
+            *self.transforms,
+            id_=self.id,
+            lower_limit=self.lower_limit,
+            upper_limit=self.upper_limit,
+        )
 
     @arithmetic
     def __mul__(self, other):
